@@ -1,6 +1,9 @@
 import Abyss.Props.C07
 import Abyss.Props.C03
 import Abyss.Props.RaBufP
+import Abyss.Props.GenCorollaries
+#print axioms Abyss.openMap_reopen
+#print axioms Abyss.openMap_existing
 #print axioms Abyss.C07_bucket_independent
 #print axioms Abyss.C07_bucketsOf
 #print axioms Abyss.nextPowerOfTwo_spec
